@@ -37,7 +37,7 @@ COMBOS = ["0e2s", "2e0s", "2e2s", "1e1s", "1e2s"]
 
 def plan(tier, seed):
     q = tier == "quick"
-    b = 34 if q else 250
+    b = 38 if q else 250
     specs = [{"kind": "mixed", "part": "eq"}, {"kind": "mixed", "part": "add"}, {"kind": "family_ctor"}]
     for rep in range(1 if q else 3):
         for c in NIST:
@@ -64,6 +64,9 @@ def finalize(agg, tier):
         need("ops:" + cv)
         for op in (XPOINT_OPS if cv in MONT else POINT_OPS):
             need("op:%s:%s" % (cv, op))
+    for cv in NIST + EDW + MONT:
+        need("random_rounds:" + cv)
+        need("grid_done:" + cv)
     for cv in NIST + EDW:
         for rel in RELATIONS:
             need("case:%s:%s" % (cv, rel))
@@ -120,14 +123,15 @@ def scalar_keyclass(k, n):
     return "longer-than-order"
 
 
-def special_scalars(n):
+def special_scalars(n, full=True):
     nb = n.bit_length()
     nl8 = 8 * ((nb + 7) // 8)
     out = [(0, "0"), (1, "1"), (2, "2"), (3, "3"), (15, "15"), (16, "16"), (17, "17"), (255, "255"), (256, "256"),
            (n - 2, "n-2"), (n - 1, "n-1"), (n, "n"), (n + 1, "n+1"), (n + 2, "n+2"), (2 * n - 1, "2n-1"), (2 * n, "2n"),
            (2 * n + 1, "2n+1"), (2 * n + 5, "2n+5"), (3 * n, "3n"), (4 * n, "4n"), (8 * n, "8n"), (8 * n + 1, "8n+1"),
            (n >> 1, "n>>1"), ((n + 1) >> 1, "(n+1)>>1")]
-    es = sorted({8, 31, 32, 33, 63, 64, 65, 127, 128, 129, nb - 1, nb, nb + 1, nl8, nl8 + 1, nl8 + 8, 600, 640, 999, 1000})
+    es = sorted({8, 31, 32, 33, 63, 64, 65, 127, 128, 129, nb - 1, nb, nb + 1, nl8, nl8 + 1, nl8 + 8, 600, 640, 999, 1000}
+                if full else {32, 64, nb - 1, nb, nb + 1, nl8, nl8 + 8, 1000})
     for e in es:
         out += [((1 << e) - 1, "2^%d-1" % e), (1 << e, "2^%d" % e), ((1 << e) + 1, "2^%d+1" % e)]
     return out
@@ -294,7 +298,7 @@ class PointFamily(object):
         self.O = (0, 1) if self.is_ed else None
         self.torsion = [t for t in ec.ed_small_order_points(c) if t != (0, 1)] if self.is_ed else []
         self.tset = set(self.torsion)
-        self.specials = special_scalars(c.n)
+        self.specials = special_scalars(c.n, ctx.tier != "quick")
         if self.is_ed:
             self.specials += [(c.h * c.n, "hn"), (c.h * c.n + 1, "hn+1"), (c.h * c.n - 1, "hn-1")]
         self.cache = {}
@@ -841,14 +845,16 @@ class PointFamily(object):
             self.op_eq(e, self.other_route(e), ne=True)
 
     def run(self, spec):
+        run_phases(self, spec)
+
+    def random_phase(self, stop):
         ctx, rng = self.ctx, self.rng
-        if spec.get("idx", 0) == 0:
-            self.grid()
-        while not ctx.expired():
+        while not stop():
+            ctx.count("random_rounds:" + self.name)
             ents = self.pool()
             gens = [e for e in ents if e.cls == "G" and e.route in ("ctor", "copy")]
             for _ in range(80):
-                if ctx.expired():
+                if stop():
                     break
                 r = rng.random()
                 if r < 0.42:
@@ -881,6 +887,18 @@ class PointFamily(object):
                     self.op_pai(rng.choice(ents))
 
 
+def run_phases(fam, spec):
+    """random exploration for the first third of the budget, then the deterministic edge grid (first shard of a curve
+    only; never cut short), then random exploration until the budget is used up."""
+    ctx = fam.ctx
+    budget = spec.get("budget_s", 30)
+    if spec.get("idx", 0) == 0:
+        fam.random_phase(lambda: ctx.time_left() < 0.65 * budget)
+        fam.grid()
+        ctx.count("grid_done:" + fam.name)
+    fam.random_phase(ctx.expired)
+
+
 # ---------------------------------------------------------------------------
 # EccXPoint family (Montgomery, x-only)
 
@@ -896,7 +914,7 @@ class XFamily(object):
         self.low_given = list(lows)                             # may be >= p
         self.lowset = {u % c.p for u in lows}
         self.maxu = (1 << (8 * c.flen)) - 1
-        self.specials = special_scalars(c.n) + [(c.h * c.n, "hn"), (c.h * c.n + 1, "hn+1"), (c.h, "h"), (c.h + 1, "h+1")]
+        self.specials = special_scalars(c.n, ctx.tier != "quick") + [(c.h * c.n, "hn"), (c.h * c.n + 1, "hn+1"), (c.h, "h"), (c.h + 1, "h+1")]
         self.cache = {}
         self.n_model = 0
 
@@ -914,7 +932,7 @@ class XFamily(object):
         else:
             X, Z = self.ec.montgomery_ladder_xz(c, k, m)
             r = None if Z % c.p == 0 else X * pow(Z, -1, c.p) % c.p
-            if crosscheck or m in self.lowset or self.n_model % 16 == 0:
+            if crosscheck or (m in self.lowset and k.bit_length() <= 64) or self.n_model % 16 == 0:
                 r2 = mont_affine_mul(c, k, m)
                 self.ctx.count("model_crosscheck:" + self.name)
                 if r2 != r:
@@ -1199,13 +1217,15 @@ class XFamily(object):
             self.op_pai(a)
 
     def run(self, spec):
+        run_phases(self, spec)
+
+    def random_phase(self, stop):
         ctx, rng = self.ctx, self.rng
-        if spec.get("idx", 0) == 0:
-            self.grid()
-        while not ctx.expired():
+        while not stop():
+            ctx.count("random_rounds:" + self.name)
             ents = self.pool()
             for _ in range(60):
-                if ctx.expired():
+                if stop():
                     break
                 r = rng.random()
                 if r < 0.6:
